@@ -68,6 +68,10 @@ def entries():
     add("cross", 6, lambda a: b.cross(np.array(a[:3], dtype=object), np.array(a[3:], dtype=object)))
     add("qpow", 4, lambda a: b.qpow(np.array(a, dtype=object), 3))
     add("conj", 4, lambda a: b.conj(np.array(a, dtype=object)))
+    # det is marked 'SymPy: supported' and reachable as base.det although it is missing from base.__all__
+    add("det/2", 4, lambda a: b.det(np.array([[a[0], a[1]], [a[2], a[3]]], dtype=object if _anysym(a) else float)))
+    add("det/3", 6, lambda a: b.det(np.array([[a[0], a[1], 1], [a[2], a[3], a[4]], [0, a[5], 2]], dtype=object if _anysym(a) else float)))
+    add("op/det(rotx)", 1, lambda a: b.det(b.rotx(a[0])))       # sin^2 + cos^2: a composed expression, value only (pose.det() is marked 'not supported')
     # class members
     add("SE3.Rx", 1, lambda a: L.SE3.Rx(a[0]).A)
     add("SE3.Ry", 1, lambda a: L.SE3.Ry(a[0]).A)
@@ -154,7 +158,7 @@ MARKED_BASE = None
 def marked():
     b = L.base
     out = []
-    for n in b.__all__:
+    for n in sorted(set(b.__all__) | {n for n in dir(b) if getattr(getattr(b, n), "__module__", "").startswith("spatialmath.base")}):
         if "SymPy: supported" in (inspect.getdoc(getattr(b, n)) or ""):
             out.append(n)
     return out
